@@ -153,12 +153,25 @@ Over(lim, x) == (IF lim.cpu >= 0 /\ x.cpu > lim.cpu THEN "cpu" ELSE "") \o (IF l
 Counted(n, pool) == n.pool = pool /\ Alive(n)
 PoolUsage(cfg, nodes, pool, capOf(_, _)) ==
     SumSeq3([i \in DOMAIN nodes |-> IF Counted(nodes[i], pool) /\ HasType(cfg, nodes[i]) THEN capOf(NType(cfg, nodes[i]), NOff(cfg, nodes[i])) ELSE Zero3])
-(* Inv_C03_PoolCapacity (PoolCapacityOK): the total capacity of the pool's nodes that are    *)
-(* not being deleted is within the pool's limits.                           *)
+(* Witness classes of a limit overshoot (one entry per resource, so that a  *)
+(* different failure of the same property gets a different signature):      *)
+(* x = the total, xb = the same total computed with BASE capacities         *)
+(* (capacity overrides of offerings ignored), nodes1 = the node count if    *)
+(* the NodeClaims stored by one and the same pass counted once.             *)
+OverSigs(lim, x, xb, nodes1) ==
+       (IF lim.cpu >= 0 /\ x.cpu > lim.cpu THEN <<IF xb.cpu <= lim.cpu THEN "cpu:capacity-override-offering" ELSE "cpu">> ELSE <<>>)
+    \o (IF lim.mem >= 0 /\ x.mem > lim.mem THEN <<IF xb.mem <= lim.mem THEN "mem:capacity-override-offering" ELSE "mem">> ELSE <<>>)
+    \o (IF lim.nodes >= 0 /\ x.nodes > lim.nodes THEN <<IF nodes1 <= lim.nodes THEN "nodes:several-nodeclaims-in-one-pass" ELSE "nodes">> ELSE <<>>)
+
+(* Inv_C03_PoolCapacity (PoolCapacityOK): the total capacity of the pool's  *)
+(* nodes that are not being deleted is within the pool's limits.            *)
 PoolCapacityOK(cfg, nodes, pool, lim) == Within(lim, PoolUsage(cfg, nodes, pool, Cap))
-\* witness class: which resource, and whether only capacity-override offerings push it over
-SigCapacity(cfg, nodes, pool, lim) ==
-    Over(lim, PoolUsage(cfg, nodes, pool, Cap)) \o (IF Within(lim, PoolUsage(cfg, nodes, pool, BaseCap)) THEN ":capacity-override-offering" ELSE "")
+\* passOf = {[claim, pass]}: the pass that stored each NodeClaim (ghost); nodes of unknown origin count one each
+CountedIdx(cfg, nodes, pool) == {i \in DOMAIN nodes : Counted(nodes[i], pool) /\ HasType(cfg, nodes[i])}
+OriginOf(passOf, n) == IF \E x \in passOf : x.claim = n.claim THEN <<"pass", (CHOOSE x \in passOf : x.claim = n.claim).pass>> ELSE <<"claim", n.claim>>
+Nodes1(cfg, nodes, pool, passOf) == Cardinality({OriginOf(passOf, nodes[i]) : i \in CountedIdx(cfg, nodes, pool)})
+SigsCapacity(cfg, nodes, pool, lim, passOf) ==
+    OverSigs(lim, PoolUsage(cfg, nodes, pool, Cap), PoolUsage(cfg, nodes, pool, BaseCap), Nodes1(cfg, nodes, pool, passOf))
 
 (* G_C03_OpenWithinLimits: when a pass stores its NodeClaims, usage plus    *)
 (* the WORST launch choice of every NodeClaim that has no instance yet      *)
@@ -171,10 +184,9 @@ WorstOf(cfg, opts, capOf(_, _)) == MaxSeq3([i \in DOMAIN opts |-> OptCap(cfg, op
 WorstTotal(cfg, nodes, pool, pending, capOf(_, _)) ==
     Add3(PoolUsage(cfg, nodes, pool, capOf), SumSeq3([i \in DOMAIN pending |-> WorstOf(cfg, pending[i], capOf)]))
 G_C03_OpenWithinLimits(cfg, nodes, pool, lim, pending) == Within(lim, WorstTotal(cfg, nodes, pool, pending, Cap))
-SigWithin(cfg, nodes, pool, lim, pending) ==
-    Over(lim, WorstTotal(cfg, nodes, pool, pending, Cap))
-      \o (IF Within(lim, WorstTotal(cfg, nodes, pool, pending, BaseCap)) THEN ":capacity-override-offering" ELSE "")
-      \o (IF Len(pending) > 1 THEN ":several-nodeclaims-in-one-pass" ELSE "")
+SigsWithin(cfg, nodes, pool, lim, pending) ==
+    OverSigs(lim, WorstTotal(cfg, nodes, pool, pending, Cap), WorstTotal(cfg, nodes, pool, pending, BaseCap),
+             PoolUsage(cfg, nodes, pool, Cap).nodes + (IF pending = <<>> THEN 0 ELSE 1))
 \* G_C03_CreateUnderLimit: no NodeClaim is stored for a pool whose usage already exceeds a limit
 G_C03_CreateUnderLimit(cfg, nodes, pool, lim) == Within(lim, PoolUsage(cfg, nodes, pool, Cap))
 =============================================================================
